@@ -1,8 +1,8 @@
 (* C15 — correspondence cases.  Each case carries the inputs and the implementation's observation.
    check_corr: the model computes the same observation.  check_spec: the property's specification (Spec.v) holds of
    the implementation's observation.  Must not import Proofs/Props. *)
-From Coq Require Import ZArith NArith Bool List.
-Require Import QV.common.Util QV.C15.Model QV.C15.Spec.
+From Coq Require Import ZArith NArith QArith Bool List.
+Require Import QV.common.Util QV.C15.Model QV.C15.Spec QV.C15.ModelQ.
 Import ListNotations.
 Open Scope Z_scope.
 
@@ -22,6 +22,10 @@ Inductive case :=
 | CTabor (p : pt) (vals : list (name * Z)) (V : list name) (cl : bool) (mode : option tmode) (mn mx : Z)
          (ups : list (list (name * Z)))
          (before : tab_obs) (after : list (list tmod * tab_obs)) (fresh : list tab_obs)
+(* non-integer updates of a single volatile repetition count: counts after every update / of a fresh instantiation
+   (None = ParameterNotIntegerException, Some None = no program, Some (Some c) = count c) *)
+| CFrac (e : expr) (vals : list (name * Q)) (ups : list (list (name * Q))) (after : list Z)
+        (fresh : list (option (option Z)))
 | CCrash.
 
 (* ------------------------------------------------------------------------------------------------------------ *)
@@ -118,6 +122,29 @@ Definition after_eqb (a b : list tmod * tab_obs) : bool :=
 
 Definition warn_of (o : tab_obs) : bool := match o with Tb _ _ _ _ w => w | TbErr => false end.
 
+Fixpoint frac_steps (e : expr) (vals : list (name * Q)) (ups : list (list (name * Q)))
+  : list (Z * option (option Z)) :=
+  match ups with
+  | [] => []
+  | us :: r =>
+      let vals' := overrideQ us vals in
+      match evalQ (envQ vals') e with
+      | Some q => (count_update q,
+                   match count_fresh q with
+                   | None => None
+                   | Some c => Some (if 0 <? c then Some c else None)
+                   end) :: frac_steps e vals' r
+      | None => []
+      end
+  end.
+Definition fresh_eqb (a b : option (option Z)) : bool :=
+  match a, b with
+  | None, None => true
+  | Some None, Some None => true
+  | Some (Some x), Some (Some y) => x =? y
+  | _, _ => false
+  end.
+
 Definition check_corr (c : case) : bool :=
   match c with
   | CTree p vals V pl ups before after fresh =>
@@ -136,6 +163,9 @@ Definition check_corr (c : case) : bool :=
       | None => match after with [] => true | _ => false end
       end &&
       list_eqb tab_obs_eqb (tabor_freshes p vals V cl mode mn mx ups) fresh
+  | CFrac e vals ups after fresh =>
+      let st := frac_steps e vals ups in
+      list_eqb Z.eqb (map fst st) after && list_eqb fresh_eqb (map snd st) fresh
   | CCrash => false
   end.
 
@@ -290,5 +320,13 @@ Definition check_spec (c : case) : bool :=
   match c with
   | CTree p vals V pl ups before after fresh => check_spec_tree p vals V pl ups before after fresh
   | CTabor p vals V _ _ _ _ ups before after fresh => check_spec_tabor p vals V ups before after fresh
+  | CFrac _ _ ups after fresh =>
+      (* the updated count is the count of a fresh instantiation with the new values (which must exist) *)
+      Nat.eqb (length after) (length ups) && Nat.eqb (length fresh) (length ups) &&
+      forallb (fun af => match snd af with
+                         | Some (Some c) => fst af =? c
+                         | Some None => fst af =? 0
+                         | None => false
+                         end) (combine after fresh)
   | CCrash => false
   end.
